@@ -10,9 +10,10 @@
 (*   cmd  : bytes charged for the command and initial arguments            *)
 (*          (each counted with one terminator)                             *)
 (*   x, r : -x and -r                                                      *)
-(* A batch is a sequence of argument indices.  The operating system's own  *)
-(* budget is not part of this module (see KernelExec / C06): the domain    *)
-(* here is inputs whose total size stays below it.                         *)
+(*   argmax : optional - the system's limit on a single argument string    *)
+(* A batch is a sequence of argument indices.  The operating system's      *)
+(* total budget is not part of this module (see KernelExec / C06): the     *)
+(* domain here is inputs whose total size stays below it.                  *)
 (***************************************************************************)
 EXTENDS Util, SequencesExt
 
@@ -30,7 +31,10 @@ BatchLines(in, b) ==
 FitsN(in, b) == in.n = 0 \/ Len(b) <= in.n
 FitsL(in, b) == in.L = 0 \/ BatchLines(in, b) <= in.L
 FitsS(in, b) == in.s = 0 \/ BatchSize(in, b) <= in.s
-Fits(in, b) == FitsN(in, b) /\ FitsL(in, b) /\ FitsS(in, b)
+\* the operating system's limit on one argument string with its terminator (KernelExec's STRMAX), where the
+\* input names it: an argument beyond it "does not fit even in an otherwise empty invocation"
+FitsA(in, b) == "argmax" \notin DOMAIN in \/ \A k \in DOMAIN b : Cost(in.args[b[k]]) <= in.argmax
+Fits(in, b) == FitsN(in, b) /\ FitsL(in, b) /\ FitsS(in, b) /\ FitsA(in, b)
 
 (***************************************************************************)
 (* Declarative statement of C04 for a finished run (execs = the batches of  *)
